@@ -17,11 +17,12 @@ INF = float('inf')
 class Iv:
     """closed interval; tlo / thi: that end point is attained by some input (see module doc);
     free: an unconstrained input (parameter) whose ends become attained when a constant guard fences it."""
-    __slots__ = ('lo', 'hi', 'tlo', 'thi', 'free', 'isint', 'rel')
+    __slots__ = ('lo', 'hi', 'tlo', 'thi', 'free', 'isint', 'rel', 'srcs')
 
-    def __init__(self, lo, hi, tlo=False, thi=False, free=False, isint=False, rel=False):
+    def __init__(self, lo, hi, tlo=False, thi=False, free=False, isint=False, rel=False, srcs=frozenset()):
         self.lo, self.hi, self.tlo, self.thi, self.free, self.isint = lo, hi, tlo, thi, free, isint
-        self.rel = rel      # computed from two non-constant operands: may be arbitrarily loose
+        self.rel = rel      # computed from two correlated non-constant operands: may be arbitrarily loose
+        self.srcs = srcs    # input variables the value depends on
 
     def __repr__(self):
         return '%s%s, %s%s' % ('[' if self.tlo else '(', self.lo, self.hi, ']' if self.thi else ')')
@@ -69,7 +70,7 @@ def hull(a, b):
         hi, thi = b.hi, b.thi
     else:
         hi, thi = a.hi, a.thi or b.thi
-    return Iv(lo, hi, tlo, thi, a.free and b.free, a.isint and b.isint, a.rel or b.rel)
+    return Iv(lo, hi, tlo, thi, a.free and b.free, a.isint and b.isint, a.rel or b.rel, a.srcs | b.srcs)
 
 
 def _mono(a, f, isint=None, dec=False):
@@ -81,8 +82,8 @@ def _mono(a, f, isint=None, dec=False):
         return TOP()
     ii = a.isint if isint is None else isint
     if dec:
-        return Iv(hi, lo, a.thi, a.tlo, False, ii, a.rel)
-    return Iv(lo, hi, a.tlo, a.thi, False, ii, a.rel)
+        return Iv(hi, lo, a.thi, a.tlo, False, ii, a.rel, a.srcs)
+    return Iv(lo, hi, a.tlo, a.thi, False, ii, a.rel, a.srcs)
 
 
 def add(a, b):
@@ -90,11 +91,13 @@ def add(a, b):
         return _mono(a, lambda x: x + b.lo, a.isint and b.isint)
     if a.const:
         return _mono(b, lambda x: x + a.lo, a.isint and b.isint)
-    return Iv(a.lo + b.lo, a.hi + b.hi, False, False, False, a.isint and b.isint, True)
+    ind = not (a.srcs & b.srcs) and not a.rel and not b.rel and a.srcs and b.srcs
+    return Iv(a.lo + b.lo, a.hi + b.hi, bool(ind and a.tlo and b.tlo), bool(ind and a.thi and b.thi), False,
+              a.isint and b.isint, not ind, a.srcs | b.srcs)
 
 
 def neg(a):
-    return Iv(-a.hi, -a.lo, a.thi, a.tlo, False, a.isint, a.rel)
+    return Iv(-a.hi, -a.lo, a.thi, a.tlo, False, a.isint, a.rel, a.srcs)
 
 
 def sub(a, b):
@@ -112,14 +115,17 @@ def mul(a, b):
         if c < 0:
             return _mono(a, lambda x: x * c, isint, dec=True)
         return const(0, isint)
+    ind = bool(not (a.srcs & b.srcs) and not a.rel and not b.rel and a.srcs and b.srcs)
     cands = []
-    for x in (a.lo, a.hi):
-        for y in (b.lo, b.hi):
+    for x, tx in ((a.lo, a.tlo), (a.hi, a.thi)):
+        for y, ty in ((b.lo, b.tlo), (b.hi, b.thi)):
             if (x == 0 and not math.isfinite(y)) or (y == 0 and not math.isfinite(x)):
-                cands.append(0)
+                cands.append((0, False))
             else:
-                cands.append(x * y)
-    return Iv(min(cands), max(cands), False, False, False, isint, True)
+                cands.append((x * y, ind and tx and ty))
+    lo = min(cands, key=lambda c: c[0])
+    hi = max(cands, key=lambda c: c[0])
+    return Iv(lo[0], hi[0], lo[1], hi[1], False, isint, not ind, a.srcs | b.srcs)
 
 
 def _tdiv(x, y):
@@ -136,16 +142,19 @@ def div(a, b, intdiv):
         c = b.lo
         f = (lambda x: _tdiv(x, c)) if intdiv else (lambda x: x / c)
         return _mono(a, f, intdiv, dec=(c < 0))
+    ind = bool(not (a.srcs & b.srcs) and not a.rel and not b.rel and a.srcs and b.srcs)
     cands = []
-    for x in (a.lo, a.hi):
-        for y in (b.lo, b.hi):
+    for x, tx in ((a.lo, a.tlo), (a.hi, a.thi)):
+        for y, ty in ((b.lo, b.tlo), (b.hi, b.thi)):
             if not math.isfinite(y):
-                cands.append(0)
+                cands.append((0, False))
             elif not math.isfinite(x):
-                cands.append(x if y > 0 else -x)
+                cands.append((x if y > 0 else -x, False))
             else:
-                cands.append(_tdiv(x, y) if intdiv else x / y)
-    return Iv(min(cands), max(cands), False, False, False, intdiv, True)
+                cands.append((_tdiv(x, y) if intdiv else x / y, ind and tx and ty))
+    lo = min(cands, key=lambda c: c[0])
+    hi = max(cands, key=lambda c: c[0])
+    return Iv(lo[0], hi[0], lo[1], hi[1], False, intdiv, not ind, a.srcs | b.srcs)
 
 
 def mod(a, b):
@@ -155,15 +164,15 @@ def mod(a, b):
     wide = a.finite and a.hi - a.lo >= m - 1
     if a.lo >= 0:
         if a.hi < m:
-            return Iv(a.lo, a.hi, a.tlo, a.thi, False, True, a.rel)
+            return Iv(a.lo, a.hi, a.tlo, a.thi, False, True, a.rel, a.srcs)
         t = a.tlo and a.thi and wide
-        return Iv(0, m - 1, t, t, False, True, a.rel)
+        return Iv(0, m - 1, t, t, False, True, a.rel, a.srcs)
     if a.hi <= 0:
         if a.lo > -m:
-            return Iv(a.lo, a.hi, a.tlo, a.thi, False, True, a.rel)
+            return Iv(a.lo, a.hi, a.tlo, a.thi, False, True, a.rel, a.srcs)
         t = a.tlo and a.thi and wide
-        return Iv(-(m - 1), 0, t, t, False, True, a.rel)
-    return Iv(-(m - 1), m - 1, a.tlo and a.lo <= -(m - 1), a.thi and a.hi >= m - 1, False, True, a.rel)
+        return Iv(-(m - 1), 0, t, t, False, True, a.rel, a.srcs)
+    return Iv(-(m - 1), m - 1, a.tlo and a.lo <= -(m - 1), a.thi and a.hi >= m - 1, False, True, a.rel, a.srcs)
 
 
 def nextdown(x):
@@ -185,17 +194,18 @@ def _ceil(a):
 
 def _fabs(a):
     if a.lo >= 0:
-        return Iv(a.lo, a.hi, a.tlo, a.thi, False, a.isint, a.rel)
+        return Iv(a.lo, a.hi, a.tlo, a.thi, False, a.isint, a.rel, a.srcs)
     if a.hi <= 0:
         return neg(a)
     if -a.lo > a.hi:
-        return Iv(0, -a.lo, False, a.tlo, False, a.isint, a.rel)
-    return Iv(0, a.hi, False, a.thi, False, a.isint, a.rel)
+        return Iv(0, -a.lo, False, a.tlo, False, a.isint, a.rel, a.srcs)
+    return Iv(0, a.hi, False, a.thi, False, a.isint, a.rel, a.srcs)
 
 
 RANGE_SUMMARY = {
     # documented, attained ranges of library functions (A-RANGE: read from Math.hpp documentation)
-    'GeographicLib::Math::AngNormalize': lambda args: Iv(-180.0, 180.0, True, True),
+    'GeographicLib::Math::AngNormalize': lambda args: Iv(-180.0, 180.0, True, True, False, False, False,
+                                                         args[0].srcs if args else frozenset()),
     'GeographicLib::Math::LatFix': lambda args: Iv(-90.0, 90.0, False, False),
 }
 
@@ -248,7 +258,7 @@ class Intervals:
                     return Iv(0, INF, False, False, False, True, True)
                 return r
             if ck == 'IntegralToFloating':
-                return Iv(v.lo, v.hi, v.tlo, v.thi, False, False, v.rel)
+                return Iv(v.lo, v.hi, v.tlo, v.thi, False, False, v.rel, v.srcs)
             if ck == 'IntegralCast':
                 if 'unsigned' in n.get('t', '') and v.lo < 0:
                     return Iv(0, INF, False, False, False, True, True)
@@ -340,7 +350,7 @@ class Intervals:
             # clamping a one-variable range by a constant keeps attainability
             if not (a.const or b.const):
                 tlo = thi = False
-            return Iv(lo, hi, tlo, thi, False, a.isint and b.isint, a.rel or b.rel)
+            return Iv(lo, hi, tlo, thi, False, a.isint and b.isint, a.rel or b.rel, a.srcs | b.srcs)
         if nm == 'pow' and len(vals) == 2 and vals[0].const and vals[0].lo > 1:
             b = vals[0].lo
             return _mono(vals[1], lambda x: float(b) ** x, False)
@@ -352,7 +362,7 @@ class Intervals:
             lo = 0.0 if a.lo >= 0 else -nextdown(m)
             hi = 0.0 if a.hi <= 0 else nextdown(m)
             # a one-variable range wider than the modulus attains (a neighbourhood of) both ends
-            return Iv(lo, hi, a.tlo and a.lo <= -m, a.thi and a.hi >= m, False, False, a.rel)
+            return Iv(lo, hi, a.tlo and a.lo <= -m, a.thi and a.hi >= m, False, False, a.rel, a.srcs)
         if nm == 'remainder' and len(vals) == 2 and vals[1].const and vals[1].lo > 0:
             m = float(vals[1].lo)
             return Iv(-m / 2, m / 2, False, False, False, False, True)
@@ -370,14 +380,14 @@ class Intervals:
                 isint = self.is_int_t(d['t'])
                 if d.get('init', -1) >= 0:
                     v = self.ev(d['init'], env)
-                    env[d['d']] = Iv(v.lo, v.hi, v.tlo, v.thi, False, isint, v.rel)
+                    env[d['d']] = Iv(v.lo, v.hi, v.tlo, v.thi, False, isint, v.rel, v.srcs)
                 elif not d.get('static_local'):
                     env[d['d']] = TOP(isint)
         elif k in ('BinaryOperator', 'CompoundAssignOperator') and n.get('op') in ASSIGN_OPS:
             key = self.key(n['ch'][0])
             v = self.ev(e, env)
             if key is not None:
-                env[key] = Iv(v.lo, v.hi, v.tlo, v.thi, False, env.get(key, TOP()).isint or v.isint, v.rel)
+                env[key] = Iv(v.lo, v.hi, v.tlo, v.thi, False, env.get(key, TOP()).isint or v.isint, v.rel, v.srcs)
         elif k == 'UnaryOperator' and n.get('op') in ('++', '--'):
             key = self.key(n['ch'][0])
             if key is not None:
@@ -419,7 +429,7 @@ class Intervals:
                         lo, hi = max(cur.lo, pv.lo), min(cur.hi, pv.hi)
                         if lo <= hi:
                             env[k] = Iv(lo, hi, pv.tlo if lo == pv.lo else cur.tlo, pv.thi if hi == pv.hi else cur.thi,
-                                        False, cur.isint, cur.rel)
+                                        False, cur.isint, cur.rel, cur.srcs)
                     continue
             if kind in ('r', 'p'):
                 env[k] = TOP(env.get(k, TOP()).isint)
@@ -455,7 +465,7 @@ class Intervals:
                             hi = -2
                         if lo > hi:
                             return None
-                        env[key] = Iv(lo, hi, False, False, False, True, cur.rel)
+                        env[key] = Iv(lo, hi, False, False, False, True, cur.rel, cur.srcs)
                     else:                               # old == 0  <=>  new == -1
                         if cur.lo > -1 or cur.hi < -1:
                             return None
@@ -571,7 +581,7 @@ class Intervals:
                     lo = lo + 1 if isint else nextup(lo)
             if lo > hi:
                 return None
-            env[key] = Iv(lo, hi, tlo, thi, cur.free, isint, cur.rel)
+            env[key] = Iv(lo, hi, tlo, thi, cur.free, isint, cur.rel, cur.srcs)
         return env
 
     # -------------------------------------------------------------- fixpoint
@@ -585,8 +595,10 @@ class Intervals:
                 iv = self.param_iv.get(p['d'])
                 if iv is None:
                     iv = TOP(self.is_int_t(p['t']), free=True)
+                    iv.srcs = frozenset([p['d']])
                 else:
-                    iv = Iv(iv.lo, iv.hi, iv.tlo, iv.thi, iv.free or (not iv.finite and not iv.rel), iv.isint, iv.rel)
+                    iv = Iv(iv.lo, iv.hi, iv.tlo, iv.thi, iv.free or (not iv.finite and not iv.rel), iv.isint, iv.rel,
+                            iv.srcs or frozenset([p['d']]))
                 env0[p['d']] = iv
         self.env_in = {entry: env0}
         self.thresholds = {0, -1, 1}
@@ -658,7 +670,7 @@ class Intervals:
                                         if visits[(b, k)] > 10:
                                             lo = h.lo if h.lo == old[k].lo else -INF
                                             hi = h.hi if h.hi == old[k].hi else INF
-                                        h = Iv(lo, hi, h.tlo and lo == old[k].lo, h.thi and hi == old[k].hi, False, h.isint, True)
+                                        h = Iv(lo, hi, h.tlo and lo == old[k].lo, h.thi and hi == old[k].hi, False, h.isint, True, h.srcs)
                                 w[k] = h
                             new = w
                         if old != new:
